@@ -190,10 +190,12 @@ func checkC07(c *Ctx, r *Report) {
 	r.rule("C07.R3", "Session-Id, CC-Request-Type and CC-Request-Number of the answer are assigned from the request on every path to Marshal", 3)
 	r.rule("C07.R4", "the unknown subscriber / rating group edge returns without writing any balance", 1)
 	r.rule("C07.R5", "the balance write-back dominates the answer (store before acknowledge)", 1)
+	r.rule("C07.R9", "the account look-up key \"imsi-\"+data is built only for Subscription-Id-Type END_USER_IMSI (a request naming another kind of identity touches no IMSI subscriber's balance)", 1)
 	r.rule("C07.R6", "the handler keeps no state between requests (no captured or package-level variable written)", 1)
 
 	abmfRules(c, r, "C07.R1", "C07.R2", "C07.R3", "C07.R4", "C07.R5", "C07.R6")
 	abmfWidthRules(c, r, "C07.R7")
+	subscriberKeyBehindTypeTest(c, r, "C07.R9", c.fn("pkg/abmf", "handleCCR"))
 	r.shareFrom(c, checkC17, map[string]string{"C17.R1": "C07.R8", "C17.R2": "C07.R8", "C17.R8": "C07.R8", "C17.R9": "C07.R8"})
 }
 
